@@ -383,6 +383,11 @@ class Kernel:
                     self._reschedule(False)
                 except SimAbort:
                     pass
+            elif self.abort_reason != "end" and self.cur is rec and rec is not self.main:
+                # the run was aborted while this thread held the baton (step cap reached inside it): the main thread is
+                # parked and must get the baton to unwind, or the process would sit here until the wall cap
+                self.cur = self.main
+                self.main.sem.release()
 
     # ------------------------------------------------------------------ line tracing
     def start_tracing(self):
